@@ -39,6 +39,9 @@ pub enum Op {
     SubProv(usize, Init),
     /// a sub-context created with `provide_i18n_subcontext` (the entry point without options) in a child owner
     SubFn(usize, Init),
+    /// a sub-context created inside a tracking scope (a Memo in a child owner, as a reactive view closure or a
+    /// `<Show>` would): the scope is read again after every step, a re-run of it builds the sub-context anew
+    SubInMemo(usize, Init),
     /// `use_i18n()` looked up now in the owner the context was provided in, then `set_locale` through that handle
     SetViaLookup(usize, usize),
     SigSet(usize, usize),
@@ -83,6 +86,7 @@ impl Model {
                 v.push(Op::SubProv(c, Init::Const(2)));
                 v.push(Op::SubFn(c, Init::None));
                 v.push(Op::SubFn(c, Init::Wired(1)));
+                v.push(Op::SubInMemo(c, Init::None));
                 v.push(Op::Sub(c, Init::None));
                 v.push(Op::Sub(c, Init::Const(2)));
                 v.push(Op::Sub(c, Init::Wired(1)));
@@ -111,7 +115,7 @@ impl Model {
                     self.cands[c].insert(p);
                 }
             }
-            Op::Sub(parent, init) | Op::SubProv(parent, init) | Op::SubFn(parent, init) => {
+            Op::Sub(parent, init) | Op::SubProv(parent, init) | Op::SubFn(parent, init) | Op::SubInMemo(parent, init) => {
                 let start: BTreeSet<usize> = match init {
                     Init::None => self.cands[parent].clone(),
                     Init::Const(l) | Init::Wired(l) => [l].into(),
@@ -183,7 +187,13 @@ struct Real {
     memos: Vec<(usize, Vec<(&'static str, Memo<String>)>)>,
     /// the views of the provider components (they own the providers' owners)
     views: Vec<AnyView>,
+    /// sub-contexts made inside a tracking scope: (context index, the scope, what its last run made)
+    in_scope: Vec<(usize, Memo<usize>, ScopeSlot)>,
+    /// owners that must live as long as the history
+    keep: Vec<Owner>,
 }
+
+type ScopeSlot = std::sync::Arc<std::sync::Mutex<Option<(I18nContext<Locale>, Owner)>>>;
 
 fn no_header() -> UseLocalesOptions {
     UseLocalesOptions::default().ssr_lang_header_getter(|| None)
@@ -207,7 +217,7 @@ impl Real {
         let root = Owner::current().expect("owner");
         let ctx: I18nContext<Locale> = init_i18n_context_with_options(opts);
         provide_context(ctx);
-        Real { ctxs: vec![ctx], owners: vec![root], wired: vec![None], accessors: vec![], reactive: vec![], memos: vec![], views: vec![] }
+        Real { ctxs: vec![ctx], owners: vec![root], wired: vec![None], accessors: vec![], reactive: vec![], memos: vec![], views: vec![], in_scope: vec![], keep: vec![] }
     }
     fn apply(&mut self, op: Op) {
         match op {
@@ -262,6 +272,31 @@ impl Real {
                 self.ctxs.push(ctx);
                 self.owners.push(child_owner);
                 self.wired.push(sig);
+            }
+            Op::SubInMemo(parent, init) => {
+                let child_owner = self.owners[parent].child();
+                let slot: ScopeSlot = Default::default();
+                let slot2 = slot.clone();
+                let runs = std::sync::Arc::new(std::sync::atomic::AtomicUsize::new(0));
+                let scope = child_owner.with(|| {
+                    Memo::new(move |_| {
+                        let initial = match init {
+                            Init::None => None,
+                            Init::Const(l) | Init::Wired(l) => Some(Signal::derive(move || loc(l))),
+                        };
+                        let ctx = init_i18n_subcontext_with_options::<Locale>(initial, None, None, Some(no_header()));
+                        provide_context(ctx);
+                        *slot2.lock().unwrap() = Some((ctx, Owner::current().expect("owner of the scope")));
+                        runs.fetch_add(1, std::sync::atomic::Ordering::SeqCst) + 1
+                    })
+                });
+                let _ = scope.get_untracked();
+                let (ctx, owner) = slot.lock().unwrap().clone().expect("the scope ran");
+                self.in_scope.push((self.ctxs.len(), scope, slot));
+                self.ctxs.push(ctx);
+                self.owners.push(owner);
+                self.wired.push(None);
+                self.keep.push(child_owner);
             }
             Op::SetViaLookup(c, l) => {
                 let handle: I18nContext<Locale> = self.owners[c].with(use_i18n);
@@ -369,6 +404,14 @@ fn expected_text(which: &str, l: usize) -> String {
 
 /// replay a history on fresh objects; after every step compare every observable with the model
 fn replay(history: &[Op], snapshots: Option<&mut Vec<String>>) -> Option<String> {
+    // a history that ends in a panic shows nothing of what the statement promises: reported as such
+    match std::panic::catch_unwind(std::panic::AssertUnwindSafe(|| replay_inner(history, snapshots))) {
+        Ok(r) => r,
+        Err(p) => Some(format!("PANIC while replaying: {}", vmodel::par::take_panic_message(p))),
+    }
+}
+
+fn replay_inner(history: &[Op], snapshots: Option<&mut Vec<String>>) -> Option<String> {
     with_owner(|| {
         let mut real = Real::new();
         let mut model = Model::new();
@@ -376,6 +419,14 @@ fn replay(history: &[Op], snapshots: Option<&mut Vec<String>>) -> Option<String>
         for (step, op) in history.iter().enumerate() {
             real.apply(*op);
             model.apply(*op);
+            // tracking scopes that made a sub-context: read again, as the view they stand for would be; what the
+            // scope's last run made is the sub-context the application now sees
+            for (c, scope, slot) in &real.in_scope {
+                let _ = scope.get_untracked();
+                let (ctx, owner) = slot.lock().unwrap().clone().expect("the scope ran");
+                real.ctxs[*c] = ctx;
+                real.owners[*c] = owner;
+            }
             // contexts
             let mut snap = String::new();
             for (c, ctx) in real.ctxs.iter().enumerate() {
@@ -541,7 +592,7 @@ pub fn run(tier: Tier) -> i32 {
     rep.sample(json!({"history": format!("{probe:?}"), "snapshots": a}));
     let n_states = states.lock().unwrap().len();
     let mut cov = serde_json::Map::new();
-    cov.insert("rule".into(), json!(format!("every operation history of length <= {depth} over a tree of <= {max_ctx} contexts: set_locale / set_locale_untracked (fr, de) on any context, set through a doubly scoped view, sub-context creation under any context with no / constant / caller-wired initial locale - directly (init_i18n_subcontext_with_options in a child owner) through the generated <I18nSubContextProvider> component placed in the parent's owner, or with provide_i18n_subcontext in a child owner -, set_locale through a handle looked up with use_i18n() in a context's owner after everything created next to it, writes to a wired signal (changing and not changing its value), creation of accessor sets (t! closures with and without arguments and scoping, t_string!, tu_string!, t_display!, the format macros; a Memo + Effect pair, and one Memo per tracked accessor - t_string!, t_display!, t!, the scoped forms, t_format_string!, t_format_display!, t_format!, t_plural!, t_plural_ordinal!, get_locale - holding that accessor alone) and `poll` (run effects to quiescence - also absent, so both 'effects have run' and 'not yet' are explored); each history is replayed from scratch on a fresh Owner (stateless search) and after EVERY step every context, a fresh scoped view of it and every accessor made earlier is read; oracle: a map context -> last locale set (own sets and its wired signal only); states = distinct (context locales) snapshots reached")));
+    cov.insert("rule".into(), json!(format!("every operation history of length <= {depth} over a tree of <= {max_ctx} contexts: set_locale / set_locale_untracked (fr, de) on any context, set through a doubly scoped view, sub-context creation under any context with no / constant / caller-wired initial locale - directly (init_i18n_subcontext_with_options in a child owner) through the generated <I18nSubContextProvider> component placed in the parent's owner, with provide_i18n_subcontext in a child owner, or inside a tracking scope (a Memo in a child owner that is read again after every step, as a reactive view closure is: a re-run replaces the sub-context by the one it builds) -, set_locale through a handle looked up with use_i18n() in a context's owner after everything created next to it, writes to a wired signal (changing and not changing its value), creation of accessor sets (t! closures with and without arguments and scoping, t_string!, tu_string!, t_display!, the format macros; a Memo + Effect pair, and one Memo per tracked accessor - t_string!, t_display!, t!, the scoped forms, t_format_string!, t_format_display!, t_format!, t_plural!, t_plural_ordinal!, get_locale - holding that accessor alone) and `poll` (run effects to quiescence - also absent, so both 'effects have run' and 'not yet' are explored); each history is replayed from scratch on a fresh Owner (stateless search) and after EVERY step every context, a fresh scoped view of it and every accessor made earlier is read; oracle: a map context -> last locale set (own sets and its wired signal only); states = distinct (context locales) snapshots reached")));
     cov.insert("exhaustive".into(), json!(true));
     cov.insert("states".into(), json!(n_states.max(1)));
     cov.insert("depth".into(), json!(depth));
